@@ -3,6 +3,7 @@ import Proofs.C20Quote
 import Proofs.C04Gen
 import Proofs.C20Stmt
 import Proofs.C20Num
+import Proofs.C20Simple
 /-! Property theorems for C20 (see /verif/DESIGN.md). Only property theorems and non-vacuity examples live here.
 
 Expressions (token level; every tree of the parser's range that C04's theorems cover: everything but the getline forms): `showE` mirrors the `String()` methods of internal/ast/ast.go with
@@ -69,11 +70,30 @@ theorem show_idempotent_stmt (s : C20Stmt.S) (rest : List C20Stmt.STok) (hs : C2
   rw [show_reparses_stmt s rest hs hrest] at h
   cases h; rfl
 
-/-- What is not proved at statement/item level (decided by the implementation-side oracle only): the printed form of whole
-    programs — items (BEGIN, END, pattern-action with range patterns, functions with parameters) and the simple
-    statements (print/printf with parenthesised argument lists and redirections, delete, getline forms, exit/return
-    with a value) — re-parses to the same program, at byte level (no two adjacent printed tokens fuse). Stated over an
-    abstract program printer/parser pair because the model has no item level yet. -/
+/-! ### simple statements as real syntax (GoawkModel.C20Simple) -/
+
+/-- `hasRedirectOp` is sound for what it is used for: a print argument of the parser's range on which it answers
+    `false` prints to an expression that the print-context parser (`printExpr`: no `>`, no `| getline`) reads back. -/
+theorem hasRedirectOp_sound (e : Expr) (hc : canon false 1 e = true) (hr : C20Simple.hasRedirectOp e = false) :
+    canon true 1 (addShow e) = true :=
+  C20Simple.canon_true_addShow e hc hr
+
+/-- The printed form of a simple statement — `print`/`printf` with any argument list (parenthesised by the printer exactly
+    when `hasRedirectOp` says so) and `>`, `>>`, `|` redirection, `delete a`, `delete a[i]`, `exit [e]`, `return [e]`,
+    `next`, `nextfile`, `break`, `continue`, an expression statement — is read back by the statement parser entry
+    `parseSimple` (on top of the C04 expression parser) as the same statement modulo grouping, whatever separator follows. -/
+theorem show_reparses_simple (s : C20Simple.Simple) (R : List C20Simple.PTok) (hok : C20Simple.okSimple s)
+    (hR : C20Simple.stmtEnd (C20Simple.hdP R) = true) :
+    ∃ s', C20Simple.parseSimple (C20Simple.showSimple s ++ R) = .ok (s', R) ∧
+      C20Simple.stripSimple s' = C20Simple.stripSimple s :=
+  C20Simple.simple_reparses s R hok hR
+
+/-- What is not proved (decided by the implementation-side oracle only): the composition into whole programs over ONE
+    token stream — the control-flow skeleton (`show_reparses_stmt`, opaque leaves) instantiated with the real simple
+    statements (`show_reparses_simple`) and conditions (`show_reparses`), the items (BEGIN, END, pattern-action with
+    range patterns, functions with parameters), multi-dimensional `delete a[i,j]`, calls, regex literals, and the
+    byte level (no two adjacent printed tokens fuse; indentation). Stated over an abstract program printer/parser pair
+    because the model has no item level yet. -/
 def show_reparses_program (Program Text : Type) (print : Program → Text) (parse : Text → Option Program)
     (norm : Program → Program) : Prop :=
   ∀ p, (∃ src, parse src = some p) → ∃ p', parse (print p) = some p' ∧ norm p' = norm p ∧ print p' = print p
@@ -124,5 +144,10 @@ example : C20Quote.RegexOk [0x61, 0x2f, 0x62] := by decide
 example : C20Stmt.isStmt (.ifS 1 (.seq (.simple 2) (.seq (.whileS 3 .skip) .skip)) (.seq (.doS (.seq (.simple 4) .skip) 5) .skip)) = true := by decide
 example : C20Stmt.hd (C20Stmt.skipNl [.rbrace]) ≠ .kElse := by decide
 example : C20Num.toy.Laws := C20Num.toy_laws
+/-- `print (1 > 2, x3) > "s4"`: the printer parenthesises the list because of the `>` argument -/
+example : C20Simple.okSimple (.print false [.binary (.cmp .gt) (.num 1) (.num 2), .var 3] (some (.cmp .gt, .str 4))) :=
+  ⟨by decide, by intro tok d h; cases h; exact ⟨rfl, by decide⟩, by intro h; cases h⟩
+example : C20Simple.hasRedirectOp (.binary (.cmp .gt) (.num 1) (.num 2)) = true ∧
+    C20Simple.hasRedirectOp (.binary .add (.group (.binary (.cmp .gt) (.num 1) (.num 2))) (.num 3)) = false := by decide
 
 end GoawkModel.C20
